@@ -73,10 +73,15 @@ def mod360_last(repo, rep):
         fi = repo.func(qual)
         for r, v in returns(fi.node):
             line = r.lineno
+            narrowed = None
             for _ in range(8):
                 if isinstance(v, ast.Call) and isinstance(v.func, ast.Attribute) and v.func.attr in ("rename", "astype"):
+                    if v.func.attr == "astype" and v.args and any(x in unparse(v.args[0]) for x in ("float32", "f4", "float16", "half", "single")):
+                        narrowed = v
                     v = v.func.value
-                elif isinstance(v, ast.Call) and call_name(v) in ("np.float32", "np.float64", "float") and v.args:
+                elif isinstance(v, ast.Call) and call_name(v) in ("np.float32", "np.float64", "float", "np.float16", "np.single", "np.half") and v.args:
+                    if call_name(v) in ("np.float32", "np.float16", "np.single", "np.half"):
+                        narrowed = v
                     v = v.args[0]
                 elif isinstance(v, ast.Name):
                     v2 = resolve(fi.node, v, before=line + 1)
@@ -87,7 +92,17 @@ def mod360_last(repo, rep):
                     break
             if unparse(v) in ("np.nan", "numpy.nan"):
                 continue
-            good = isinstance(v, ast.BinOp) and isinstance(v.op, ast.Mod) and repo.const(fi.module, v.right) in (360, 360.0)
+            def _c360(e_):
+                while isinstance(e_, ast.Call) and call_name(e_) in ("np.float32", "np.float64", "float", "int") and len(e_.args) == 1:
+                    e_ = e_.args[0]
+                return repo.const(fi.module, e_) in (360, 360.0)
+            good = isinstance(v, ast.BinOp) and isinstance(v.op, ast.Mod) and _c360(v.right)
+            if good and narrowed is not None:
+                rep.fail("R-C10-8", fi.file, r.lineno, fi.qualname, unparse(narrowed)[:100],
+                         "the direction is reduced modulo 360 in double precision and THEN rounded to single precision: a value within 1.5e-5 of 360 rounds to "
+                         "exactly 360.0, outside [0, 360) (a mean direction a hair west of north)", anchor=f"narrowed-after-mod360:{fi.short}")
+            elif good:
+                rep.ok("R-C10-8", f"{fi.file}:{r.lineno} {fi.short}", unparse(v)[:80], "no narrowing cast after the last modulo")
             if good:
                 rep.ok("R-C10-2", f"{fi.file}:{r.lineno} {fi.short}", unparse(v)[:80], "reduced modulo 360 as the outermost operation: result in [0, 360)")
             else:
@@ -171,8 +186,16 @@ def run(repo, rep, tier):
     rep.rule("R-C10-1", "every statistic is exactly homogeneous in the spectrum with the degree the property states (heights 1/2, drift / "
                         "slope / moments 1, periods / directions / spreads / shape parameters 0); comparisons are scale-invariant")
     rep.rule("R-C10-2", "direction results are reduced modulo 360 as the outermost arithmetic step")
+    rep.rule("R-C10-8", "a direction result is not rounded to a narrower float type after its last reduction modulo 360 (rounding can produce exactly 360)")
     rep.rule("R-C10-3", "(shared) dp returns a direction coordinate unconditionally; direction bin widths are circular; no cached trig weights")
     rep.rule("R-C10-4", "scale_by_hs: factor (expr/hs)^2 applied where the requested closed ranges hold (each range active when either bound is given)")
+    rep.rule("R-C10-9", "(shared with C02) the peak direction is the coordinate at the arg-max of the spectrum as stored (no re-sorting of the directions before the "
+                        "arg-max: with tied maxima a relabelling by +a would no longer shift dp by a), and the peak locator sees the spectrum at full precision (a narrowing "
+                        "cast before the locator moves the peak of nearly tied bins: tp leaves the bin the period bounds refer to)")
+    from .c02 import peak_direction as _pd, peak_locator as _pl
+    from .c07 import _Relabel
+    _pd(repo, _Relabel(rep, "R-C10-9"))
+    _pl(repo, _Relabel(rep, "R-C10-9"))
     T = Typing(repo, two_d=True)
     mod360_last(repo, rep)
     scale_by_hs(repo, rep)
